@@ -285,7 +285,7 @@ func (w *World) WF(t types.Type, v *smt.Term, depth int) *smt.Term {
 	case *types.Slice:
 		dt := w.SliceDT
 		ln, cp, off, arr := c.Field(dt, 2, v), c.Field(dt, 3, v), c.Field(dt, 1, v), c.Field(dt, 0, v)
-		return c.And(c.Le(c.IntLit(0), ln), c.Le(ln, cp), c.Le(c.IntLit(0), off), c.Le(c.IntLit(0), arr),
+		return c.And(c.Le(c.IntLit(0), ln), c.Le(ln, cp), c.Le(cp, c.BigLit(pow2(56))), c.Le(c.IntLit(0), off), c.Le(c.IntLit(0), arr),
 			c.Implies(c.Eq(arr, c.IntLit(0)), c.Eq(cp, c.IntLit(0))))
 	case *types.Pointer, *types.Map, *types.Chan, *types.Signature:
 		return c.Le(c.IntLit(0), v)
